@@ -31,3 +31,20 @@ package yae
 //@   uses yae.(*Expr).makeSureInit
 //@   writers oper.Sort
 //@   note NewLexer / NewParser pass the engine's operator slice to oper.Sort (sort.SliceStable, in place); after the first compilation the slice is sorted and a stable sort of a sorted slice writes nothing - the property's own carve-out ("an instance that has finished its first compilation")
+
+// Environment check before evaluation (C07).  envCheck itself runs a closure
+// under recover and is outside the verified subset: its contract is ASSUMED
+// (it returns nil only for an environment that passed the check).  Proved:
+// the Callable reaches the compiled closure only after envCheck accepted the
+// environment of THIS call.
+//@ func (*Expr).envCheck
+//@   props C07
+//@   trusted
+//@   modifies
+//@   ensures err == nil ==> envOK(env0, env)
+
+//@ closure (*Expr).makeCallable$1
+//@   props C07 C12
+//@   requires e != nil && closure != nil && env0 != nil
+//@   modifies all
+//@   at call dyn: assert #checked-first envOK(env0, env1)
